@@ -51,6 +51,7 @@ var c13Kinds = []string{
 	"decode-point", "decode-uncompressed", "fr-setbytes", "fr-setbytes-le", "fr-setbytes-le-canonical", "fr-batchinvert", "fr-misc",
 	"transcript", "proof-write", "proof-read", "groupops", "weights", "innerprod", "powers", "precomp-point", "execute",
 	// calls that must fail
+	"transcript-retain", "fail-prove-zero-commitment",
 	"fail-prove-len", "fail-prove-zero", "fail-prove-polylen", "fail-verify-len", "fail-batchnorm-zero", "fail-read-short", "fail-decode-noncanonical", "fail-msm-len",
 }
 
@@ -396,6 +397,45 @@ func doCall(a *arena, c C13Call) (out string, failed bool) {
 	case "commit":
 		e := cfg.Commit(a.Polys[pick(nPolys, c.A)])
 		return digest(e.Bytes()), false
+	case "fail-prove-zero-commitment":
+		// an un-normalisable commitment in the list: the prover must fail, and whatever it did
+		// to the other commitments before failing must preserve their values
+		k := pick(nPolys, c.A)
+		Cs := []*banderwagon.Element{a.Commits[k], &banderwagon.Element{}, a.Commits[pick(nPolys, c.B)]}
+		fs := [][]fr.Element{a.Polys[k], a.Polys[k], a.Polys[pick(nPolys, c.B)]}
+		_, err := multiproof.CreateMultiProof(common.NewTranscript("z"), cfg, Cs, fs, []uint8{a.Zs[0], a.Zs[1], a.Zs[2]})
+		return digest(err != nil), err != nil
+	case "transcript-retain":
+		// absorb private copies of caller buffers, then overwrite the copies BEFORE the
+		// challenge is drawn: a transcript that kept references instead of copying would
+		// produce a different challenge than the clean run
+		run := func(scribble bool) fr.Element {
+			lab := append([]byte{}, a.Labels[pick(nBufs, c.A)]...)
+			msg := append([]byte{}, a.Buf32[pick(nElems, c.B)]...)
+			sc := *a.ScalPtr[pick(nScal, c.N)]
+			pt := *a.Elems[pick(nElems, c.A)]
+			tr := common.NewTranscript(string(a.Labels[pick(nBufs, c.B)]))
+			tr.DomainSep(lab)
+			tr.AppendMessage(msg, lab)
+			tr.AppendScalar(&sc, lab)
+			tr.AppendPoint(&pt, lab)
+			if scribble {
+				for i := range lab {
+					lab[i] ^= 0x5a
+				}
+				for i := range msg {
+					msg[i] ^= 0xa5
+				}
+				sc = a.Scalars[3]
+				pt = a.ElemVal[0]
+			}
+			return tr.ChallengeScalar([]byte("c"))
+		}
+		c1, c2 := run(false), run(true)
+		if c1 != c2 {
+			return "RETAINS-CALLER-BUFFER", false
+		}
+		return digest(c1), false
 	case "prove", "fail-prove-len", "fail-prove-zero", "fail-prove-polylen":
 		n := 1 + c.N%4
 		var Cs []*banderwagon.Element
@@ -605,7 +645,14 @@ func doCall(a *arena, c C13Call) (out string, failed bool) {
 		return digest(s.Bytes(), d.Bytes(), dd.Bytes(), m.Bytes(), n.Bytes(), cp.Bytes(), am.Bytes(), x.Equal(y), x.IsOnCurve()), false
 	case "weights":
 		w := cfg.PrecomputedWeights
-		q := w.DivideOnDomain(a.Zs[pick(nPolys, c.A)], a.Polys[pick(nPolys, c.B)])
+		idx := a.Zs[pick(nPolys, c.A)]
+		switch c.N % 4 {
+		case 0:
+			idx = 0
+		case 1:
+			idx = 255
+		}
+		q := w.DivideOnDomain(idx, a.Polys[pick(nPolys, c.B)])
 		bc := w.ComputeBarycentricCoefficients(a.Scalars[3+pick(nScal-3, c.N)])
 		var vals []interface{}
 		for _, v := range q {
@@ -711,7 +758,7 @@ func (c13) Exec(plan interface{}) Result {
 			nr := a.rawValues()
 			if nr != raw {
 				// only the prover and BatchNormalize may change a representation
-				if c.Kind != "prove" && c.Kind != "batchnorm" && c.Kind != "fail-batchnorm-zero" && !(c.Kind[:4] == "fail" && c.Kind[5:10] == "prove") {
+				if c.Kind != "prove" && c.Kind != "batchnorm" && c.Kind != "fail-batchnorm-zero" && !(len(c.Kind) >= 10 && c.Kind[:4] == "fail" && c.Kind[5:10] == "prove") {
 					return false, fail("representation-changed", "call %d (%s) %s changed the representation of a shared group element although it is not a normalising call", i, c.Kind, after)
 				}
 				raw = nr
@@ -744,6 +791,9 @@ func (c13) Exec(plan interface{}) Result {
 			d, failed := doCall(a, c)
 			if failed {
 				o.failedCalls++
+			}
+			if d == "RETAINS-CALLER-BUFFER" {
+				return fail("retains-caller-buffer", "call %d (%s): the transcript's challenge changes when the caller overwrites its label/message/scalar/point buffers AFTER they were absorbed: the transcript kept a reference instead of a copy", i, c.Kind)
 			}
 			if i == 0 {
 				first = d
